@@ -311,22 +311,5 @@ def r04_5_dfa(cx):
     from rules.builder import closure_with
     from rules.dfabuild import r_one_start_closure
     r_one_start_closure(cx, ids=('R04.5',))
-    for prefix, cap in (('dfa::Builder::finish_build_both_starts', 'anewsid'),):
-        c = closure_with(cx, prefix, cap)
-        dg = bool_gates(c, lambda x: eq_cond(x) is not None and any('State::fail' in tstr(s0) for s0 in eq_cond(x)[:2]) and any('NFA::DEAD' in tstr(s0) for s0 in eq_cond(x)[:2]))
-        nx = [bi for bi, t in c.calls(r'next_state$')]
-        ok = bool(dg) and len(nx) == 1
-        if ok:
-            # next_state(Anchored::No, state.fail(), byte) on the not-DEAD edge
-            ne = []
-            for g in dg:
-                e = eq_cond(g[1])
-                ne += g[3] if e[2] else g[2]
-            ok = not reachable_without(c, nx, ne)
-            ct = c.call_term(nx[0], c.term(nx[0]))
-            ok = ok and is_agg(ct[2][1], r'Anchored$', 'No') and 'State::fail' in tstr(ct[2][2]) and 'byte' in tstr(ct[2][3])
-        # no other condition short-cuts to DEAD besides FAIL/anchored/fail==DEAD tests
-        conds = [tstr(sc[1], 120) for blk, sc in c.switches() if sc[0] == 'bool']
-        extra = [x for x in conds if not ('NFA::FAIL' in x or 'is_anchored' in x or ('State::fail' in x and 'NFA::DEAD' in x))]
-        cx.report('R04.5', c, 'failure-closure', ok and not extra, 'a missing transition is resolved through nnfa.next_state(Anchored::No, state.fail(), byte) unless state.fail() is DEAD' if ok and not extra else
-                  'the DFA failure closure is short-cut by another condition (%s) or does not follow state.fail()' % extra)
+    from rules.dfabuild import both_starts_rules
+    both_starts_rules(cx, ids=('R04.5',))
